@@ -1177,17 +1177,18 @@ class Interp:
             do_exit([None, None, None])
 
     # ---- loops
-    def loop_spec(self):
+    def loop_spec(self, node=None):
         if not self.call_stack:
             return None, None
         clo = self.call_stack[-1]
-        ordinal = self.loop_counters[-1]
+        # loop ordinal = position of the loop statement among the loops of the function, in source order
+        ordinal = loop_ordinal(clo.node, node) if node is not None else self.loop_counters[-1]
         self.loop_counters[-1] += 1
         spec = self.hooks.get("loops", {}).get((clo.module, clo.qualname, ordinal))
         return spec, f"{clo.qualname}/loop{ordinal}"
 
     def x_While(self, s, env, qual):
-        spec, lname = self.loop_spec()
+        spec, lname = self.loop_spec(s)
         saved_counter = self.loop_counters[-1] if self.loop_counters else 0
         if spec is None:
             n = 0
@@ -1235,7 +1236,7 @@ class Interp:
 
     def x_For(self, s, env, qual):
         it = self.eval(s.iter, env)
-        spec, lname = self.loop_spec()
+        spec, lname = self.loop_spec(s)
         saved_counter = self.loop_counters[-1] if self.loop_counters else 0
         if isinstance(it, SymSeq) or (spec is not None and getattr(spec, "force", False)):
             if spec is None:
@@ -1262,7 +1263,7 @@ class Interp:
     def x_AsyncFor(self, s, env, qual):
         itv = self.eval(s.iter, env)
         ai = self.call_method(itv, "__aiter__", [])
-        spec, lname = self.loop_spec()
+        spec, lname = self.loop_spec(s)
         if spec is None:
             raise Unsupported(f"async for {lname} needs an invariant")
         anext = self.getattr_(ai, "__anext__")
@@ -1303,7 +1304,11 @@ class Interp:
         if isinstance(v, SymSeq):
             raise Unsupported("iteration over a sequence of symbolic length outside a loop with invariant")
         if isinstance(v, SV) and v.k in ("str", "bytes"):
-            raise Unsupported("iteration over a symbolic string outside a loop with invariant")
+            n = z3.simplify(z3.Length(v.t))
+            for k in range(0, 9):
+                if (z3.is_int_value(n) and n.as_long() == k) or (not z3.is_int_value(n) and self.ctx.proved(z3.Length(v.t) == k, "strlen")):
+                    return [SV(v.k, z3.simplify(z3.SubString(v.t, i, 1))) for i in range(k)]
+            raise Unsupported("iteration over a symbolic string of unknown length outside a loop with invariant")
         raise Unsupported(f"iteration over {type(v).__name__}")
 
     # ------------------------------------------------------------------ expressions
@@ -1703,6 +1708,28 @@ def assigned_names(stmts):
             elif isinstance(n, (ast.FunctionDef, ast.AsyncFunctionDef, ast.ClassDef)):
                 names.add(n.name)
     return names
+
+
+_LOOP_ORD = {}
+
+
+def loop_ordinal(fn_node, loop_node):
+    key = id(fn_node)
+    if key not in _LOOP_ORD:
+        loops = []
+
+        def walk(n):
+            for ch in ast.iter_child_nodes(n):
+                if isinstance(ch, (ast.FunctionDef, ast.AsyncFunctionDef, ast.Lambda, ast.ClassDef)):
+                    continue
+                if isinstance(ch, (ast.For, ast.While, ast.AsyncFor)):
+                    loops.append(ch)
+                walk(ch)
+
+        walk(fn_node)
+        loops.sort(key=lambda n: (n.lineno, n.col_offset))
+        _LOOP_ORD[key] = {id(n): i for i, n in enumerate(loops)}
+    return _LOOP_ORD[key].get(id(loop_node), -1)
 
 
 MUTATORS = {"add", "append", "extend", "update", "pop", "remove", "discard", "insert", "clear", "popleft", "setdefault", "reverse", "sort"}
